@@ -857,6 +857,13 @@ func runMidicatListenTo(c *mon.Ctx, r *mon.Rand, idx int64) {
 		msgs = append(msgs, midi.SysEx(r.Bytes7(ln-2)))
 		c.Count("mc_listento_sysex_lengths_swept", 1)
 	}
+	if idx%8 == 1 {
+		// dumps of tens of kilobytes: one line of 64 KiB and more for the helper and for the reader of the in-port
+		for _, ln := range []int{32_765, 32_766, 32_767, 32_768, 32_769, 40_000, 65_536, 70_000} {
+			msgs = append(msgs, midi.SysEx(r.Bytes7(ln-2)), midi.NoteOn(ch(), d(), 1+d()%127))
+			c.Count("mc_listento_dumps_of_32KiB_and_more", 1)
+		}
+	}
 	probe := midi.NoteOn(15, 1, 1)
 	sentinel := midi.NoteOn(14, 127, 127)
 	desc := map[string]any{"history": "midi.ListenTo + midi.SendTo on the process-backed driver", "messages": func() []string {
